@@ -42,14 +42,25 @@ def nts_shadow(run):
 
 
 class LifeFn(Fn):
-    def __init__(self, node):
-        super().__init__(node)
+    def __init__(self, node, statics=None, subst=None, depth=0):
+        super().__init__(node, statics, subst, depth)
         self.top = self.body.get("inner", [])
         self.labels = {}
         for i, st in enumerate(self.top):
             if st.get("kind") == "LabelStmt":
                 self.labels[st.get("declId")] = i
-        self.depth = 0
+        self.gdepth = 0
+
+    def _inlinable(self, call):
+        """as in skel.Fn, but the inlined helper is translated with this class's extensions as well"""
+        r = super()._inlinable(call)
+        if r is None:
+            return None
+        h, stmts, ret = r
+        h2 = LifeFn(h.node, self.statics, None, self.depth + 1)
+        h2.subst = h.subst
+        h2.params = []
+        return h2, stmts, ret
 
     def expr(self, n):
         n0 = strip(n)
@@ -75,11 +86,11 @@ class LifeFn(Fn):
             return "(SSeq %s)" % ("[" + ";\n ".join(self.stmt(c) for c in inner) + "]")
         if k == "GotoStmt":
             tgt = n.get("targetLabelDeclId")
-            if tgt in self.labels and self.depth < 3:
-                self.depth += 1
+            if tgt in self.labels and self.gdepth < 3:
+                self.gdepth += 1
                 rest = self.top[self.labels[tgt]:]
                 out = "(SSeq [" + ";\n ".join(self.stmt(c) for c in rest) + "])"
-                self.depth -= 1
+                self.gdepth -= 1
                 return out
             return "(SOther %s)" % q("goto to a label that is not at the top level of the function")
         if k == "BinaryOperator" and n.get("opcode") == "=":
@@ -137,8 +148,13 @@ def record_writes(node, typename, out):
             record_writes(c, typename, out)
 
 
-def skel_term(fnnode):
-    f = LifeFn(fnnode)
+def statics_of(tu):
+    """the file-local static functions of a translation unit (candidates for inlining, see skel.Fn)"""
+    return {k: v for k, v in functions(tu).items() if v.get("storageClass") == "static" and not k.startswith("__")}
+
+
+def skel_term(fnnode, statics=None):
+    f = LifeFn(fnnode, statics)
     return len(f.params), f.stmts(f.body)
 
 
@@ -230,7 +246,7 @@ def tr_cfglife(run):
             notes.append("function %s not found in %s" % (fn, rel))
             out.append(emit_fn(ident, fn, 0, '[SOther "missing function"]'))
             return
-        n, body = skel_term(fns[fn])
+        n, body = skel_term(fns[fn], statics_of(tu(rel, shadow)))
         out.append(emit_fn(ident, fn, n, body))
     for ident, rel, fn in CFG_ITEMS:
         add(ident, rel, fn)
@@ -254,7 +270,7 @@ def tr_cfglife(run):
     for i, (name, pf) in enumerate(reg):
         ident = "sk_parse_%d" % i
         if pf in fns:
-            n, body = skel_term(fns[pf])
+            n, body = skel_term(fns[pf], statics_of(tu("src/configfile.c")))
         else:
             notes.append("value parser %s not found" % pf)
             n, body = 0, '[SOther "missing function"]'
@@ -312,6 +328,8 @@ def callgraph(run):
     if getattr(run, "_life_cg", None):
         return run._life_cg
     srcs = [os.path.relpath(s, run.tree) for s in run.lib_sources(entry=True)]
+    file_statics = {}
+    run._life_statics = file_statics
 
     def one(rel):
         t = clang_ast2(run, rel)
@@ -336,6 +354,7 @@ def callgraph(run):
                         walk(c)
             walk(node)
             res.append((name, rel, sorted(cs), bool(ind), node, statics))
+        file_statics[rel] = statics_of(t)
         return res, taken
     with ThreadPoolExecutor(NCPU) as ex:
         parts = list(ex.map(one, srcs))
@@ -389,7 +408,7 @@ def tr_resid(run):
     for i, n in enumerate(order):
         rel, cs, ind, node, statics = fns[n]
         if n in touch:
-            np_, body = skel_term(node)
+            np_, body = skel_term(node, run._life_statics.get(rel))      # file-local static helpers inlined where that is purely syntactic
             out.append(emit_fn("rf_%d" % i, n, np_, body))
             sk = "(Some rf_%d)" % i
             nsk += 1
